@@ -115,6 +115,15 @@ func (g *gen) script(host, self string, depth int, isInit, static bool) *Script 
 				t = g.pick("K1", "K2", "K3")
 			}
 			o := &Op{A: "call", Target: t, V: g.value()}
+			if g.r.Intn(9) == 0 {
+				// CALL to a precompiled contract: succeeds (the value stays there) or fails by input / by gas (everything undone)
+				o = &Op{A: "pcall", Target: "P", V: g.value(), Gl: g.pick("ok", "ok", "bad", "bad", "lowgas")}
+				if static {
+					o.V = 0
+				}
+				s.ops = append(s.ops, o)
+				continue
+			}
 			switch y := g.r.Intn(100); {
 			case y < 45:
 			case y < 63:
@@ -189,7 +198,7 @@ func (g *gen) script(host, self string, depth int, isInit, static bool) *Script 
 
 func (g *gen) pre() *Pre {
 	p := &Pre{Bal: map[string]int64{}, Wq: map[string]int64{}, Lk: map[string]string{}, LockVal: U}
-	for _, n := range []string{"E1", "E2", "E3", "K1", "K2", "K3", "Z", "F", "N", "Q"} {
+	for _, n := range []string{"E1", "E2", "E3", "K1", "K2", "K3", "Z", "F", "N", "Q", "P"} {
 		p.Wq[n], p.Lk[n] = 0, "none"
 		switch n[0] {
 		case 'E':
@@ -204,6 +213,8 @@ func (g *gen) pre() *Pre {
 			p.Bal[n] = int64(g.r.Intn(2)) * int64(g.r.Intn(2*U))
 		case 'Q':
 			p.Bal[n] = int64(20*U + g.r.Intn(20*U))
+		case 'P':
+			p.Bal[n] = int64(1 + g.r.Intn(3)) // the precompile's account exists
 		default:
 			p.Bal[n] = 0
 		}
@@ -220,6 +231,12 @@ func (g *gen) tx() *Tx {
 	}
 	tx.V = g.value()
 	switch x := g.r.Intn(100); {
+	case x < 4:
+		tx.Kind = "call" // a well-formed call to the precompile: the value stays on its address
+		tx.To = "P"
+	case x < 8:
+		tx.Kind = "pbad" // malformed input: the transaction fails, the value must come back
+		tx.To = "P"
 	case x < 55:
 		tx.Kind = "call"
 		tx.To = g.accts[g.r.Intn(len(g.accts))]
